@@ -184,6 +184,21 @@ CLAIMS["C08"] = dict(
     technique="translation validation of two builds over synthesised and sample files, relation stated in TLA+ and evaluated by TLC",
     design="DESIGN.md §3.2, §4 C08")
 
+CLAIMS["C09"] = dict(
+    category="model_checking",
+    text=("MeshOps!DeleteVertsViol states the property with the naive IndexOps definitions: surviving vertices = Erase(labels, I) with "
+          "positions and all attributes, triangles = MapTris(tris, CollapseMap(I, nv)) in order for list kinds, skin weights follow "
+          "their vertices, every index anywhere (triangles, strips, NiSkinData, partition vertex maps / triangles / strips, triParts, "
+          "segments, locked normals) valid, counters and per-vertex arrays agree, segments tile the triangles, reload gives the same "
+          "geometry. TLC (MeshMC) enumerates every labelled mesh of <= 5 vertices / <= 3 triangles x every non-empty index subset; the "
+          "harness runs each on real shapes in OB, FO3, SK, SSE, FO4 (segmented) and FO76, unskinned and skinned, from normal form, and "
+          "TLC judges every record. Sample files: every geometry kind incl. strips, dynamic, sub-index and mesh-LOD shapes with single / "
+          "prefix / suffix / random / scattered / all subsets and repeated deletion."),
+    note=("Vertex identity is read from positions of constructed meshes (vertex i at (i,0,0)); attribute equality is content-id equality. Quick "
+          "tier runs a seeded 1/6 of the enumerated cases. Partition coverage after deletion is not demanded (C10 applies after a rebuild)."),
+    technique="TLC-enumerated meshes x index subsets executed on real shapes; TLA+ relation over IndexOps definitions evaluated by TLC on every recorded step",
+    design="DESIGN.md §3.4, §4 C09")
+
 NOT_YET = {}
 
 
